@@ -119,6 +119,7 @@ Record elffile : Type := mkelf {
      self.stream.seek(0); self.e_ident_raw = self.stream.read(16)
      self._section_header_stringtable = self._get_section_header_stringtable()
    _get_section_header_stringtable:
+     if self['e_shoff'] == 0: return None            <- repair b9afe31 (offset 0 holds the ELF header)
      n = self.get_shstrndx(); h = self._get_section_header(n)
      if h is None: return None
      return StringTableSection(header=h, name='', elffile=self) *)
@@ -128,6 +129,7 @@ Definition ctor (legacy : bool) (bs : list Z) : M elffile :=
   dom hdr <- struct_parse_at legacy (gen_Elf_Ehdr le is64) (binds_Ehdr is64) bs 0;
   let x := mkctx bs (blen bs) legacy is64 le hdr in
   dom e_ident_raw <- raw_read bs 0 16;
+  if hz x "e_shoff" =? 0 then ret (mkelf x None) else
   dom n <- get_shstrndx x;
   dom oh <- get_section_header x n;
   match oh with
